@@ -1,5 +1,6 @@
 // govc:pkg condition
 // govc:bound 8 operators x 5 numeric literals x 24 row values (NaN, +-Inf, -0, integers of every width incl. beyond 2^53, float32, numeric-looking text, bool, NULL, absent) and 6 operators x 3 string literals x 8 values, each as a single comparison and inside a flat AND and a flat OR chain
+// govc:also C05 C06 C13 C17
 // Bounded stand-in (NOT a proof) for the part of the statement that contracts over real arithmetic cannot reach (NaN and
 // infinities do not exist in the model) and for values of kinds the shortcut declines: the compiled shortcut decides
 // exactly as the general evaluator, which is reached by writing the same predicate in parentheses.
